@@ -526,15 +526,32 @@ func (h *H) setClock(sec int64) {
 }
 
 func (h *H) setBlock(b sim.BlockSet) {
+	old := h.o.block
 	h.o.block = b
 	h.srv.SetIPBlockList(b.Clone())
-	// a write that passed its blocklist check before the list changed may still be on its way to the socket (the
-	// check and the write are not one step): such datagrams belong before the SetBlock line. Wait until nobody is
-	// inside writeToNode any more, then log what has been written so far
+	// The blocklist check and the write it guards are not one step, and datagrams are logged when they are collected,
+	// not when they are written. What has been written by the time nobody is inside writeToNode any more is placed
+	// where its check must have happened: a datagram to an address the old list covered can only have passed under
+	// the new list (after the SetBlock line), everything else passed under the old one or does not care (before it)
 	for deadline := time.Now().Add(5 * time.Second); sim.CountGoroutines("(*Server).writeToNode") != 0 && time.Now().Before(deadline); {
 		time.Sleep(100 * time.Microsecond)
 	}
-	h.flush(false)
+	for _, c := range h.takeCbs() {
+		h.emitCb(c)
+	}
+	var after []sim.OutF
+	for _, o := range h.conn.TakeAll() {
+		if old != nil && o.To != nil && old.Has(o.To.IP) {
+			after = append(after, o)
+		} else {
+			h.logOut(o.Out, o.Failed)
+		}
+	}
+	defer func() {
+		for _, o := range after {
+			h.logOut(o.Out, o.Failed)
+		}
+	}()
 	bl := []string{}
 	for k := range b {
 		bl = append(bl, sim.Hex([]byte(k)))
